@@ -51,3 +51,107 @@ def c01_comma_column(v, params):
         return False
     text = v['detail'] + ' ' + ' '.join(map(str, v.get('observed') or []))
     return 'ColumnNotFoundError' in text
+
+
+# ---- C02 ---------------------------------------------------------------------------------------
+
+def _items(v):
+    o = v.get('observed')
+    return o if isinstance(o, list) and o and isinstance(o[0], list) else None
+
+
+def c02_falsy_default(v, params):
+    """Recorded defect: the DBML renderer tests `if model.default:` so 0, 0.0, false and '' are not
+    written (pinned by test_data/integration1.dbml).  Every difference must be exactly 'default lost'."""
+    it = _items(v)
+    if v['kind'] != 'content-changed' or not it:
+        return False
+    for path, got, exp in it:
+        if not path.endswith('.default'):
+            return False
+        if got != ['none'] or not (isinstance(exp, list) and len(exp) == 2 and exp[0] in ('int', 'float', 'bool', 'str')
+                                   and exp[1] in (0, 0.0, False, '')):
+            return False
+    return True
+
+
+def c02_keyword_string_default(v, params):
+    """Recorded defect: a *string* default spelled null/true/false (any case) is written bare and comes back
+    as NULL / a boolean (pinned by test_default_to_str)."""
+    it = _items(v)
+    if v['kind'] != 'content-changed' or not it:
+        return False
+    # diff_items reports scalar lists as a whole: path .default, got e.g. ['bool', True] / ['str', 'NULL']
+    for path, got, exp in it:
+        if not path.endswith('.default') or not (isinstance(exp, list) and exp[0] == 'str' and isinstance(exp[1], str)):
+            return False
+        low = exp[1].lower()
+        if low == 'null' and got == ['str', 'NULL']:
+            continue
+        if low == 'true' and got == ['bool', True]:
+            continue
+        if low == 'false' and got == ['bool', False]:
+            continue
+        return False
+    return True
+
+
+def _reindented(got, exp):
+    if not isinstance(got, str) or not isinstance(exp, str) or '\n' not in exp:
+        return False
+    g = got.split('\n')
+    if g and g[0].strip() == '' and len(g) == len(exp.split('\n')) + 1:
+        g = g[1:]
+    e = exp.split('\n')
+    if len(g) != len(e):
+        return False
+    # every line equal up to added leading blanks (multiples of the 4-space block indentation)
+    for gl, el in zip(g, e):
+        if gl == el:
+            continue
+        if gl.lstrip(' ') != el.lstrip(' ') or len(gl) < len(el) or (len(gl) - len(el)) % 4:
+            return False
+    return True
+
+
+def c02_multiline_settings_text(v, params):
+    """Recorded defect: multi-line text written in settings position (column / index / enum-item notes,
+    property values, project items) is indented together with the enclosing block and keeps that
+    indentation when parsed back (note_option_to_dbml output pinned by test_tools.py)."""
+    it = _items(v)
+    if v['kind'] != 'content-changed' or not it:
+        return False
+    for path, got, exp in it:
+        if path.endswith('.note') and ('.columns[' in path or '.indexes[' in path or '.items[' in path):
+            if not _reindented(got, exp):
+                return False
+        elif '.properties' in path or path.endswith('.properties'):
+            # whole list reported: [[k, v], ...]
+            if not (isinstance(got, list) and isinstance(exp, list) and len(got) == len(exp)):
+                return False
+            if got and isinstance(got[0], str):     # a single [key, value] pair
+                got, exp = [got], [exp]
+            for g, e in zip(got, exp):
+                if g == e:
+                    continue
+                if g[0] != e[0] or not _reindented(g[1], e[1]):
+                    return False
+        else:
+            return False
+    return True
+
+
+def c02_dotted_or_comma_name(v, params):
+    """Same root causes as C01-dotted-name / C01-comma-column, seen through the round trip."""
+    c = v['case']
+    if c.get('mode') != 'ident':
+        return False
+    name, pos = c.get('name', ''), c.get('pos')
+    text = v['detail']
+    if '.' in name and pos in ('table', 'schema'):
+        return 'TableNotFoundError' in text
+    if '.' in name and pos in ('enum', 'enum_schema'):
+        return 'ValueError' in text or '.type' in text
+    if ',' in name and pos in ('column', 'ref_target_col'):
+        return 'ColumnNotFoundError' in text
+    return False
